@@ -109,3 +109,82 @@ def transform_tree(root, rename=True):
                 open(p, "w", encoding="utf-8").write(ast.unparse(tree) + "\n")
                 n += 1
     return n
+
+
+class _Logger(ast.NodeTransformer):
+    """Insert a logging call at the top of every function body and turn simple assignments into annotated ones."""
+
+    def __init__(self, annotate):
+        self.annotate = annotate
+
+    def _fn(self, node):
+        self.generic_visit(node)
+        call = ast.parse(f"logging.getLogger(__name__).debug('enter %s', {node.name!r})").body[0]
+        body = list(node.body)
+        k = 1 if body and isinstance(body[0], ast.Expr) and isinstance(body[0].value, ast.Constant) and \
+            isinstance(body[0].value.value, str) else 0
+        node.body = body[:k] + [call] + body[k:]
+        return node
+
+    visit_FunctionDef = _fn
+    visit_AsyncFunctionDef = _fn
+
+    def visit_Assign(self, node):
+        self.generic_visit(node)
+        if self.annotate and len(node.targets) == 1 and isinstance(node.targets[0], ast.Name):
+            return ast.AnnAssign(target=node.targets[0], annotation=ast.Name(id="object", ctx=ast.Load()),
+                                 value=node.value, simple=1)
+        return node
+
+
+def transform_tree_logging(root, annotate=True):
+    """Third whole-package twin: `import logging`, a debug call on entry of every function, annotated assignments."""
+    n = 0
+    for dp, dn, fn in os.walk(os.path.join(root, "torchsde")):
+        for f in fn:
+            if f.endswith(".py"):
+                p = os.path.join(dp, f)
+                tree = ast.parse(open(p, encoding="utf-8").read())
+                tree = _Logger(annotate).visit(tree)
+                # after the module docstring and __future__ imports
+                k = 0
+                while k < len(tree.body) and ((isinstance(tree.body[k], ast.Expr) and isinstance(tree.body[k].value, ast.Constant))
+                                              or (isinstance(tree.body[k], ast.ImportFrom) and tree.body[k].module == "__future__")):
+                    k += 1
+                tree.body.insert(k, ast.parse("import logging").body[0])
+                ast.fix_missing_locations(tree)
+                open(p, "w", encoding="utf-8").write(ast.unparse(tree) + "\n")
+                n += 1
+    return n
+
+
+class _Control(ast.NodeTransformer):
+    """Fourth twin: `if c: A else: B` becomes `if not c: B else: A` (elif chains are kept as they are), and every
+    single-operator ordering comparison `a < b` is written the other way round, `b > a`."""
+    _FLIP = {ast.Lt: ast.Gt, ast.Gt: ast.Lt, ast.LtE: ast.GtE, ast.GtE: ast.LtE}
+
+    def visit_If(self, node):
+        self.generic_visit(node)
+        if node.orelse and not (len(node.orelse) == 1 and isinstance(node.orelse[0], ast.If)):
+            node.test = ast.UnaryOp(op=ast.Not(), operand=node.test)
+            node.body, node.orelse = node.orelse, node.body
+        return node
+
+    def visit_Compare(self, node):
+        self.generic_visit(node)
+        if len(node.ops) == 1 and type(node.ops[0]) in self._FLIP:
+            return ast.Compare(left=node.comparators[0], ops=[self._FLIP[type(node.ops[0])]()], comparators=[node.left])
+        return node
+
+
+def transform_tree_control(root):
+    n = 0
+    for dp, dn, fn in os.walk(os.path.join(root, "torchsde")):
+        for f in fn:
+            if f.endswith(".py"):
+                p = os.path.join(dp, f)
+                tree = _Control().visit(ast.parse(open(p, encoding="utf-8").read()))
+                ast.fix_missing_locations(tree)
+                open(p, "w", encoding="utf-8").write(ast.unparse(tree) + "\n")
+                n += 1
+    return n
